@@ -19,17 +19,22 @@ import (
 	"encoding/hex"
 	"encoding/json"
 	"fmt"
+	"go/ast"
+	"go/parser"
+	"go/token"
 	"io"
 	"math/big"
 	"os"
 	"path/filepath"
 	"reflect"
 	"runtime"
+	"strconv"
 	"strings"
 	"sync"
 	"time"
 
 	"com.tuntun.rangers/node/src/common"
+	"com.tuntun.rangers/node/src/core"
 	pb "com.tuntun.rangers/node/src/middleware/pb"
 	"com.tuntun.rangers/node/src/middleware/types"
 	"github.com/gogo/protobuf/proto"
@@ -992,6 +997,199 @@ func (x *H) purity(rounds int) {
 				d1 := cHdr(v.Header) + cTx(v.Transactions[0])
 				scribble(in)
 				alias("UnMarshalBlock", src, d1, cHdr(v.Header)+cTx(v.Transactions[0]))
+			}
+		}
+	}
+}
+
+// ---------------------------------------------------------------- capacity boundaries and cached headers
+
+// integer constant [name] of a Go source file of the tree under test (the producers' limits are read from the code)
+func srcConst(root, rel, name string, dflt int) (int, bool) {
+	f, err := parser.ParseFile(token.NewFileSet(), filepath.Join(root, rel), nil, 0)
+	if err != nil {
+		return dflt, false
+	}
+	found, val := false, dflt
+	ast.Inspect(f, func(n ast.Node) bool {
+		vs, ok := n.(*ast.ValueSpec)
+		if !ok {
+			return true
+		}
+		for i, id := range vs.Names {
+			if id.Name == name && i < len(vs.Values) {
+				if lit, ok := vs.Values[i].(*ast.BasicLit); ok {
+					if v, e := strconv.Atoi(lit.Value); e == nil {
+						found, val = true, v
+					}
+				}
+			}
+		}
+		return true
+	})
+	return val, found
+}
+
+func (x *H) capacity(root string) {
+	g := x.g
+	limit, ok := srcConst(root, "src/service/transaction_pool.go", "txCountPerBlock", 200)
+	gmax, ok2 := srcConst(root, "src/consensus/model/param.go", "GROUP_MAX_MEMBERS", 10)
+	gmin, ok3 := srcConst(root, "src/consensus/model/param.go", "GROUP_MIN_MEMBERS", 5)
+	x.res.Note(fmt.Sprintf("capacity limits read from the source: txCountPerBlock=%d (%v) GROUP_MAX_MEMBERS=%d (%v) GROUP_MIN_MEMBERS=%d (%v)", limit, ok, gmax, ok2, gmin, ok3))
+	smallTx := func(i int) *types.Transaction {
+		t := &types.Transaction{Source: "0x01", Target: "0x02", Type: 1, Nonce: uint64(i), Time: "t", ChainId: "9500"}
+		t.Hash = t.GenHash()
+		return t
+	}
+	for _, k := range []int{0, 1, limit - 1, limit, limit + 1, 2 * limit, 5 * limit} {
+		if k < 0 {
+			continue
+		}
+		h := g.header(true)
+		blk := &types.Block{Header: h, Transactions: []*types.Transaction{}}
+		h.Transactions = make([]common.Hashes, 0)
+		h.EvictedTxs = make([]common.Hash, 0)
+		for i := 0; i < k; i++ {
+			t := smallTx(i)
+			blk.Transactions = append(blk.Transactions, t)
+			h.Transactions = append(h.Transactions, common.Hashes{t.Hash, t.SubHash})
+			if i%2 == 0 {
+				h.EvictedTxs = append(h.EvictedTxs, t.Hash)
+			}
+		}
+		h.Hash = h.GenHash()
+		id := fmt.Sprintf("cap-block-%d", k)
+		x.res.Count("capacity:block", id, true)
+		why := ""
+		b, err := types.MarshalBlock(blk)
+		if err != nil || len(b) == 0 {
+			why = fmt.Sprintf("MarshalBlock fails (%v)", err)
+		} else {
+			var v *types.Block
+			pan, msg := guard(func() { v, err = types.UnMarshalBlock(append([]byte{}, b...)) })
+			switch {
+			case pan:
+				why = "UnMarshalBlock panics: " + msg
+			case err != nil:
+				why = "the node's own block does not parse back: " + err.Error()
+			case v == nil || v.Header == nil || len(v.Transactions) != k:
+				why = "parsed block has a different number of transactions"
+			case cHdr(v.Header) != cHdr(h) || v.Header.GenHash() != h.Hash:
+				why = "header content / GenHash changed"
+			default:
+				for i := range v.Transactions {
+					if cTx(v.Transactions[i]) != cTx(blk.Transactions[i]) {
+						why = fmt.Sprintf("transaction %d changed", i)
+						break
+					}
+				}
+			}
+		}
+		if why == "" { // the header alone, with as many transaction / evicted hashes
+			hb, err := types.MarshalBlockHeader(h)
+			var hv *types.BlockHeader
+			pan, _ := guard(func() { hv, err = types.UnMarshalBlockHeader(hb) })
+			if pan || err != nil || hv == nil || cHdr(hv) != cHdr(h) || hv.GenHash() != h.Hash {
+				why = "header with this many transaction hashes does not survive MarshalBlockHeader/UnMarshalBlockHeader"
+			}
+			var tl []*types.Transaction
+			tb, err := types.MarshalTransactions(blk.Transactions)
+			pan, _ = guard(func() { tl, err = types.UnMarshalTransactions(tb) })
+			if why == "" && (pan || err != nil || len(tl) != k) {
+				why = "transaction list of this length does not survive MarshalTransactions/UnMarshalTransactions"
+			}
+		}
+		if why != "" {
+			x.res.Violate("C09/roundtrip:block:capacity", fmt.Sprintf("block with %d transactions (pool limit txCountPerBlock = %d): %s", k, limit, why),
+				map[string]interface{}{"transactions": k, "txCountPerBlock": limit, "bytes_len": len(b), "bytes_prefix": hexs(b[:minInt(len(b), 200)]), "how": "header = gen.header(true); transactions i=0..k-1: Transaction{Source 0x01, Target 0x02, Type 1, Nonce i, Time t, ChainId 9500}"})
+		}
+	}
+	for _, k := range []int{0, 1, gmin - 1, gmin, gmax - 1, gmax, gmax + 1, 2 * gmax, 2*gmax + 1, 100, 1000} {
+		if k < 0 {
+			continue
+		}
+		gr := g.group(true)
+		gr.Members = nil
+		for i := 0; i < k; i++ {
+			gr.Members = append(gr.Members, g.r.Bytes(32))
+		}
+		x.res.Count("capacity:group", fmt.Sprintf("cap-group-%d", k), true)
+		b, err := types.MarshalGroup(gr)
+		var v *types.Group
+		pan, msg := guard(func() { v, err = types.UnMarshalGroup(b) })
+		if pan || err != nil || v == nil || v.Header == nil || cGroup(normGrp(v)) != cGroup(normGrp(gr)) || v.Header.GenHash() != gr.Header.GenHash() {
+			x.res.Violate("C09/roundtrip:group:capacity", fmt.Sprintf("group with %d members does not survive MarshalGroup/UnMarshalGroup (%v %s %v)", k, pan, msg, err),
+				map[string]interface{}{"members": k, "bytes_len": len(b)})
+		}
+	}
+}
+
+func minInt(a, b int) int {
+	if a < b {
+		return a
+	}
+	return b
+}
+
+// header objects that were stored and are held by a cache must keep their bytes and hash while the chain goes on:
+// the request-id bookkeeping of CastBlock (core.getRequestIdFromTransactions, reached through the verif hook) is run on
+// the cached header's own map, as CastBlock does with chain.latestBlock.RequestIds
+func (x *H) relay(rounds int) {
+	g := x.g
+	for r := 0; r < rounds; r++ {
+		hN := g.header(true)
+		fixed := uint64(g.r.Intn(1000))
+		switch r % 4 {
+		case 0:
+			hN.RequestIds = map[string]uint64{"fixed": fixed}
+		case 1:
+			hN.RequestIds = map[string]uint64{"fixed": fixed, "0xaa": 7}
+		case 2:
+			hN.RequestIds = map[string]uint64{}
+		case 3:
+			hN.RequestIds = nil
+		}
+		hN.Hash = hN.GenHash()
+		stored, err := types.MarshalBlockHeader(hN) // what insertBlock writes to the store
+		if err != nil || len(stored) == 0 {
+			continue
+		}
+		stored = append([]byte{}, stored...)
+		before := cHdr(hN)
+		// the proposer prepares block N+1 on top of the cached header N
+		var txs []*types.Transaction
+		for j := 0; j < 1+g.r.Intn(3); j++ {
+			t := g.tx()
+			switch g.r.Intn(3) {
+			case 0:
+				t.RequestId = 0
+			case 1:
+				t.RequestId = fixed + 1 + uint64(g.r.Intn(50)) // a client request with a larger id
+			default:
+				t.RequestId = uint64(g.r.Intn(int(fixed) + 1))
+			}
+			txs = append(txs, t)
+		}
+		var next map[string]uint64
+		pan, msg := guard(func() { next = core.VerifC09RequestIds(txs, hN.RequestIds) })
+		hN1 := g.header(true)
+		hN1.RequestIds = next
+		hN1.PreHash = hN.Hash
+		guard(func() { types.MarshalBlockHeader(hN1); hN1.GenHash() })
+		// header N is now served from the cache (chain piece / QueryBlockHeaderByHeight(h, true))
+		relayed, _ := types.MarshalBlockHeader(hN)
+		x.res.Count("relay:cached-header", "r"+before, true)
+		if pan || !bytes.Equal(relayed, stored) || hN.GenHash() != hN.Hash || cHdr(hN) != before {
+			x.res.Violate("C09/relay:cached-header-mutated", "preparing the next block changed the cached header it builds on: header N relayed from the cache differs from its stored bytes (GenHash "+hN.GenHash().Hex()+" vs Hash "+hN.Hash.Hex()+") "+msg,
+				map[string]interface{}{"header_before": before, "header_after": cHdr(hN), "stored": hexs(stored), "relayed": hexs(relayed), "next_request_ids": string(reqJSON(next))})
+		}
+		// and the two headers must not share one map
+		if next != nil && hN.RequestIds != nil && len(next) > 0 {
+			next["__probe"] = 1
+			_, shared := hN.RequestIds["__probe"]
+			delete(next, "__probe")
+			if shared {
+				x.res.Violate("C09/relay:cached-header-mutated", "block N+1 and the cached header N share one RequestIds map", map[string]interface{}{"header": before})
 			}
 		}
 	}
@@ -2129,6 +2327,11 @@ func main() {
 	// ---- 10. purity: bytes a Marshal* call returned belong to the caller; objects a parser returned do not depend on
 	// the input buffer any more
 	x.purity(n / 15)
+
+
+	// ---- 11. capacity boundaries (limits read from the producers' code), 12. cached headers across CastBlock's bookkeeping
+	x.capacity(root)
+	x.relay(n / 6)
 
 	for _, s := range []string{"pb transaction with only Type set: wire 2801", "header subsets: Height/Nonce/TotalQN/EvictedTxs absent x valid and hostile time bytes",
 		"node headers in UTC / Local(+08:00) / fixed zones incl. +01:00:07 and +00:00:01", "mutated encodings of blocks, headers, transactions, groups"} {
